@@ -109,7 +109,7 @@ def run(ctx):
     rep.explanation = ('Static MIR analysis. PROV-CTX: inverse_with_context -> impl_inverse_uint_scale: the final with_precision_round receives '
                        'ctx.precision and ctx.rounding. R-SIGN: the implementation rounds |x| and copies the sign afterwards, so the exact '
                        '(sign, mode) table is extracted from the CFG: the rounding routine must receive Ceiling for (Minus, Floor), Floor for '
-                       '(Minus, Ceiling) and the caller\'s context in the 19 other cells. OPERAND-EXACT: the operand reaches the Newton iteration unrounded (only the iterate and the guess are clipped). NOT decided: convergence, termination, accuracy at small p.')
+                       '(Minus, Ceiling) and the caller\'s context in the 19 other cells. OPERAND-EXACT: the operand reaches the Newton iteration unrounded (only the iterate and the guess are clipped). ITER-EXIT: the exit test of the refinement loop must not depend on a value that already went through the rounding to the caller\'s precision under the caller\'s mode (agreement of two p-digit roundings says nothing about the limit) - a known finding on this tree. NOT decided: convergence and termination as such, the digits of the result.')
     F = ctx.facts('default', 'rel')
     fns = roots.family(F, r'^inverse|^impl_inverse')
     rep.entries['inverse family'] = [f.key for f in fns]
@@ -124,6 +124,9 @@ def run(ctx):
     rep.floor('kernel gateways', nkg, 1)
     n4 = operand_exact(rep, F)
     rep.floor('operand-exactness rule', n4, 1)
+    from rules import iterexit
+    n5 = iterexit.check(rep, F, 'arithmetic::inverse::impl_inverse_uint_scale')
+    rep.floor('iteration exit tests', n5, 1)
     rep.floor('entry points with sign-carrying returns', n3, 1)
     if ctx.tier == 'thorough':
         from rules import witness
